@@ -3,6 +3,28 @@
 import json, os
 HERE = os.path.dirname(os.path.dirname(os.path.abspath(__file__)))
 
+# What the hardening rounds (DESIGN 11.5-11.5g) added on top of the texts below.
+ADDED = {
+ 'C01': ' Added later: callable-object probes, calls that fail for a missing REQUIRED binding and a finalize (later binds inside unlock_config) in mid-history, BaseException raised in bodies, caller values with hostile __eq__.',
+ 'C04': ' Added later: BaseException in the first evaluated producer, same-named producers in two modules, gin.REQUIRED markers next to caller values, finalize in mid-history, skip_unknown forms, scoped references under dynamic registration.',
+ 'C05': ' Added later: clear_config (with / without constants) in mid-history, deque-held references bound through the API, trailing-newline constant names.',
+ 'C06': ' Added later: registered methods of same-named classes, placeholder-holding and reference-keyed dict values, ints beyond the repr digit limit, case-variant parameter names, references made ambiguous by a later registration, generated imports in two binding orders, iteration-order permutation of the set of recorded imports.',
+ 'C07': ' Added later: callable-object probes, a called gin.singleton scenario with replay, falsy macro values.',
+ 'C08': ' Added later: parts C (dynamically registered functions / classes / methods) and D (constants, macros named like them), aliases, rejected inserts with valid trailing components, terminal-marker and trailing-newline names, ambiguity under skip_unknown.',
+ 'C09': ' Added later: BaseException exits, clear_config / failing macro evaluation / rejected finalize inside open scopes, trailing-newline names.',
+ 'C10': ' Added later: callable-object probes, bindings whose value is the REQUIRED marker.',
+ 'C11': ' Added later: re-listing the same callable or class, names freed by method re-homing taken again, dynamically registered bare methods, classes without construction parameters, positional-only parameters, a self-contained dropped-function pattern.',
+ 'C12': ' Added later: BaseException in unlock bodies, unlock_config as a decorator on a recursive function, mutation attempts from another thread, hook pairs returning one object, special references nested in lists / dict values / dict keys, parses that begin with an import, interactive re-registration under the lock.',
+ 'C13': ' Added later: functools.wraps over a registered function, BaseException in interactive bodies, stray exit_interactive_mode, dynamic configuration of a method of a registered class, classes without construction parameters, bound methods after their plain function, trailing-newline names.',
+ 'C14': ' Added later: skip_unknown forms on every entry point, dynamic names across files, module-is-not-a-package names.',
+ 'C15': ' Added later: gin builtins under dynamic registration, get_bindings on placeholder holders, a module failing with a nameless ImportError, a module whose import registers a configurable.',
+ 'C16': ' Added later: file names with braces, list-of-lines and extra-bindings entries, a decoy second reader, parse into a locked configuration, reads interrupted by BaseException, files vanishing under the reader.',
+ 'C17': ' Added later: classes not re-instantiable from args (always / for some instances), classes that cannot be proxied, levels registered with lists, a natural TypeError with brace keyword names, attribute snapshot at raise time.',
+ 'C18': ' Added later: constructor faults, None / falsy singletons, provenance reads, direct singleton_value uses, macros, clear_constants between phases.',
+ 'C19': ' Added later: capitalised and sibling packages, a plain gin.* import in a non-dynamic sibling text, statically registered objects under other names, a functools.wraps variant, scoped references, bad enabling statements under skip_unknown; one open known finding (alias-derived registry names).',
+ 'C20': ' Added later: constants in the gin. namespace, root-bound and programmatic singleton constructors, parses interrupted by BaseException while reading.',
+}
+
 CHECKS = {
  'C06': dict(level='exploration', ref='3/C06',
    technique='history permutation and re-parse round trips in twin worlds (harness reset between): the same binding set applied in two orders with failing operations interleaved, every intermediate config_str re-parsed in a reset world; a share of runs under dynamic registration over virtual packages with colliding import names',
@@ -99,7 +121,7 @@ def main():
       'replay_cmd_template': './check %s --replay {path}' % pid,
       'engine': 'ginsim',
       'level_claimed': {'category': c['level'], 'text': c['text'], 'design_ref': 'DESIGN.md section ' + c['ref']},
-      'level_note': c['note'],
+      'level_note': c['note'] + ADDED.get(pid, ''),
       'technique': c['technique'],
     })
   na = [{'property_id': p, 'reason': r} for p, r in NA]
